@@ -385,7 +385,7 @@ func (r *run) splitCases(d *Design) {
 			if fs, isObj, _ := o.ioFields(m.Payload); isObj && m.Payload != nil && m.SPayload == nil {
 				if got, ok := x.request(mi); ok {
 					i := r.newCase(caseInfo{Stream: "split", Svc: svc.Name, Design: d})
-					splitLines = append(splitLines, fmt.Sprintf("(%d, %s, [%s], %s)", i, strs(fldNames(fs)), strs(m.Metadata), strs(got)))
+					splitLines = append(splitLines, fmt.Sprintf("(%d, %s, [%s; %s], %s)", i, strs(fldNames(fs)), strs(m.Metadata), strs(m.SecNames(d)), strs(got)))
 				}
 			}
 			res := m.Result
@@ -402,7 +402,7 @@ func (r *run) splitCases(d *Design) {
 	}
 }
 
-var splitLines []string
+var splitLines, runtimeLines []string
 
 func fldNames(fs []Fld) []string {
 	var out []string
@@ -473,6 +473,11 @@ func main() {
 		for _, w := range MustReject() {
 			r.mustReject(w)
 		}
+		nrt := 800
+		if *tier == "thorough" {
+			nrt = 8000
+		}
+		runtimeLines = r.runtimeStream(rng.Fork(), nrt)
 		if *tier == "thorough" {
 			tierB(r, rng.Fork(), *out, *repo)
 		}
@@ -486,6 +491,7 @@ func finish(r *run, out string) {
 	writeLines(filepath.Join(out, "cases_names.txt"), r.names)
 	writeLines(filepath.Join(out, "cases_witness.txt"), r.wit)
 	writeLines(filepath.Join(out, "cases_split.txt"), splitLines)
+	writeLines(filepath.Join(out, "cases_runtime.txt"), runtimeLines)
 	r.res.Distinct = len(r.distinct)
 	r.res.Rule = "designs are built through goa's public DSL from generated descriptions (fixed covering set, then seed-driven random designs inside the partial hypotheses, then the hostile attribute-name stream, then one witness design per recorded finding); a case is one rendered .proto file (or one attribute name of the name stream); distinct = distinct SHA-256 of the rendered text / of the name; every rendered file has a service block and at least two messages, so none is trivial"
 	if err := r.res.Write(filepath.Join(out, "result.json")); err != nil {
